@@ -6,7 +6,8 @@
    protocol downgrade with its nested reconnect()),
    disconnect (1873-1892), the DISCONNECT branch of _packet_write (3229-3243).
    Driven by a script of per-attempt outcomes.  Keepalive matters only for the losses LSilent / LWriteErr
-   (C08 is separate), client id non-empty, no QoS>0 traffic.  Model only, no proofs.
+   (C08 is separate), client id non-empty, no QoS>0 traffic (the correspondence also runs the
+   implementation WITH stored QoS 1 messages: they must not change a delay).  Model only, no proofs.
 
    Things of the source kept on purpose:
    * reconnect() sets _state = CONNECTING before the socket is created; after a refused FIRST attempt
